@@ -244,7 +244,7 @@ impl C18State {
             (Some(Ev::Lost(a)), Some(Ev::Lost(b))) => a == b,
             _ => false,
         };
-        if !ok {
+        if !ok && da != ts {
             self.fail("event", format!("probe of #{da} answered {:?}: event {:?}, expected {:?} (was member: {was_member})", ans, ev, expect));
             return;
         }
@@ -258,8 +258,8 @@ impl C18State {
         }
         // membership accessor (live list): = answered at the last probe
         if let App::Live(l) = &self.app {
-            let listed: Vec<u8> = l.iter_stations().collect();
-            let mut expect: Vec<u8> = self.cfg.tracked.iter().enumerate().filter(|(i, _)| self.member[*i]).map(|(_, a)| *a).collect();
+            let listed: Vec<u8> = l.iter_stations().filter(|a| *a != ts).collect();
+            let mut expect: Vec<u8> = self.cfg.tracked.iter().enumerate().filter(|(i, a)| self.member[*i] && **a != ts).map(|(_, a)| *a).collect();
             expect.sort();
             if listed != expect {
                 self.fail("membership", format!("iter_stations() = {listed:?}, reference = {expect:?}"));
@@ -325,10 +325,9 @@ impl World for C18World {
     fn step(&self, a: usize, _p: &[u16]) -> Option<Self> {
         let ans = ANSWERS[a % 7];
         let (da, idx) = self.pending?;
-        // the scanning station's own address never answers (nobody else has it)
-        if da == self.s.cfg.ts && ans != Ans::Silent {
-            return None;
-        }
+        // (a responder at the scanning station's OWN address — an address collision — is part of "all
+        // populations": what the application reports for that address is not judged, "other than the scanning
+        // station", but the sweep has to go on; found by a seeded change that got stuck there)
         if ans == Ans::ReplyLost && self.s.losses >= self.s.cfg.max_losses {
             return None;
         }
